@@ -545,7 +545,7 @@ func (f *Frame) enterLoop(lp *Loop) {
 			env := f.envAt(b, pre, over)
 			goal := env.trBool(c.E)
 			g.addOblig(&Oblig{Name: f.obName(fmt.Sprintf("loop%d.inv-entry", lp.Ordinal), c, i), Kind: "invariant-entry",
-				Goal: implies(f.curReach, goal), Pos: f.pos(b.Instrs[0].Pos()), Text: c.Text})
+				Goal: implies(f.curReach, goal), Pos: f.pos(b.Instrs[0].Pos()), Text: c.Text, ClauseProps: c.Props})
 		}
 	}
 	// havoc
@@ -603,7 +603,7 @@ func (f *Frame) closeLoop(lp *Loop, from *ssa.BasicBlock) {
 	for i, c := range f.loopClauses(lp, "invariant") {
 		goal := env.trBool(c.E)
 		g.addOblig(&Oblig{Name: f.obName(fmt.Sprintf("loop%d.inv-preserved.e%d", lp.Ordinal, beIdx), c, i), Kind: "invariant-preserved",
-			Goal: implies(cond, goal), Pos: f.pos(lastPos(from)), Text: c.Text})
+			Goal: implies(cond, goal), Pos: f.pos(lastPos(from)), Text: c.Text, ClauseProps: c.Props})
 	}
 	for i, c := range f.loopClauses(lp, "decreases") {
 		nv := env.tr(c.E)
@@ -615,7 +615,7 @@ func (f *Frame) closeLoop(lp *Loop, from *ssa.BasicBlock) {
 			goal = and(app(">=", ov.S, "0"), app("<", nv.S, ov.S))
 		}
 		g.addOblig(&Oblig{Name: f.obName(fmt.Sprintf("loop%d.decreases.e%d", lp.Ordinal, beIdx), c, i), Kind: "decreases",
-			Goal: implies(cond, goal), Pos: f.pos(lastPos(from)), Text: c.Text})
+			Goal: implies(cond, goal), Pos: f.pos(lastPos(from)), Text: c.Text, ClauseProps: c.Props})
 	}
 }
 
@@ -642,6 +642,9 @@ func (g *Gen) addOblig(o *Oblig) {
 	o.NAsserts = len(g.asserts)
 	if g.FC != nil {
 		o.Props = g.FC.Props
+	}
+	if len(o.ClauseProps) > 0 {
+		o.Props = o.ClauseProps
 	}
 	pkg, name := ContractName(g.Fn)
 	o.Fn = pkg + "." + name
